@@ -15,7 +15,7 @@ CHECKS = {
 
 CHECKS['C12'] = dict(
     technique='translation validation of the real optimiser: abstract stack machine over recorded compiler streams + exhaustive compiler-shaped window enumeration through peephole_optimize',
-    text='Every window up to the length bound over the alphabet the rules mention (restricted to adjacent pairs the real compiler emits) is run through the real peephole_optimize and the output is checked for event/stack/variable equivalence from the entry and from every label plus line provenance; every pre/post stream pair recorded from real compiles of the corpus is checked the same way. Exhaustive for the enumerated window space, sampling for whole programs.',
+    text='Every window up to the length bound over the alphabet the rules mention, including 16-bit operands that alias a small one modulo 256 (restricted to adjacent pairs the real compiler emits), and drop/load runs of up to 600 instructions, is run through the real peephole_optimize and the output is checked for event/stack/variable equivalence from the entry and from every label plus line provenance; every pre/post stream pair recorded from real compiles of the corpus is checked the same way. Exhaustive for the enumerated window space, sampling for whole programs.',
     note='Trusts the abstract machine semantics in lib/absmach.py (written from ops.rs); windows containing adjacencies the compiler never emits are outside the quantifier and not enumerated.',
     ref='DESIGN.md §2 C12')
 
@@ -89,23 +89,23 @@ CHECKS['C17'] = dict(
 
 CHECKS['C18'] = dict(
     technique='reference-model differential over generated call chains: stderr traceback parsed and compared frame by frame, backTrace/message/inner printed by the program, exit status observed in-process and at the OS',
-    text='Generated call chains (functions, methods, statics, initialisers, named/anonymous lambdas, native callbacks; depth 1-10) end in an explicit raise or a runtime error and are caught at the top, in a middle frame or not at all; the model tracks the call chain with the line numbers the printer assigned; every traceback frame (file, line, function name, native frames) and every backTrace line, the message, the inner error, the failing exit status, exit(n) for n up to 65535 and output completeness are compared on debug and release.',
+    text='Generated call chains (functions, methods, statics, initialisers, named/anonymous lambdas, native callbacks; depth 1-10) end in an explicit raise or a runtime error and are caught at the top, in a middle frame or not at all, optionally passing through one or two try blocks per frame whose clauses do not match; padding statements include string literals spanning several physical lines; the model tracks the call chain with the line numbers the printer assigned; every traceback frame (file, line, function name, native frames) and every backTrace line, the message, the inner error, the failing exit status, exit(n) for n up to 65535 and output completeness are compared on debug and release.',
     note=_MODEL_NOTE + ' One statement per physical line (the line of a call is then unambiguous); files stay far below 65535 lines (u16 line table, D26).', ref='DESIGN.md §2 C18')
 
 CHECKS['C19'] = dict(
     technique='session-vs-file self-differential + reference model over generated prompt sessions fed line by line to the real REPL',
-    text='Generated sessions (definitions, calls into any earlier line, functions with property/invoke sites over earlier objects, classes extended later, closures over session variables, entries that fail to compile or raise, each followed by a probe of earlier definitions) are fed to Vm::repl through stdin; the output with prompts stripped must equal the reference model and the output of the good lines run as one file; debug, release and debug under a collection schedule with address reuse.',
-    note=_MODEL_NOTE + ' Every entry is one physical line (the prompt reads lines).', ref='DESIGN.md §2 C19')
+    text='Generated sessions (definitions, calls into any earlier line, functions with property/invoke sites over earlier objects, classes extended later, closures over session variables, entries that fail to compile or raise, entries that define a function with call sites and then raise, each followed by probes of earlier definitions through differently named methods) are fed to Vm::repl through stdin; every fifth session launches fibers on one line and receives from them on later lines (oracle: the same lines as one file), and a fixed corpus of 240 sessions in which main also sends to earlier fibers is compared against a committed per-session list (known finding D47); the output with prompts stripped must equal the reference model and the output of the good lines run as one file; debug, release and debug under a collection schedule with address reuse.',
+    note=_MODEL_NOTE + ' Every entry is one physical line (the prompt reads lines). Sessions whose file run is not clean (scheduler findings of C07/C08) are skipped.', ref='DESIGN.md §2 C19')
 
 CHECKS['C15'] = dict(
-    technique='seeded mutational fuzzing of the real front end (token/byte mutations, truncations, token soup) + boundary inputs, phase-attributed through the compile-dump hook; libFuzzer+ASan in the thorough tier when available',
-    text='Tens of thousands of seeded mutants of all repo fixtures and generated programs plus boundary inputs (nesting 256 deep for every recursive construct, 254-300 locals/parameters/arguments/captures, 65535-70000 constants, megabyte tokens, 66000 lines, oversized jumps) are fed to Vm::run on debug (compiler debug assertions count as panics) and release. A crash, abort, signal or timeout before the compile hook reports a finished module is a front-end violation; a compile-error status must come with a diagnostic and empty stdout. REPL survival after bad lines is covered by C19.',
+    technique='seeded mutational fuzzing of the real front end (token/byte mutations, transplanted context-dependent statements, multi-byte characters inside tokens, truncations, token soup) + boundary inputs, phase-attributed through the compile-dump hook; libFuzzer+ASan in the thorough tier when available',
+    text='Tens of thousands of seeded mutants of all repo fixtures and generated programs plus boundary inputs (nesting 256 deep for every recursive construct, 254-600 locals at function and nested-block level, 254-300 parameters/arguments/captures, an escape zoo of every escape introducer x ascii/multi-byte payload x closer, 65535-70000 constants, megabyte tokens, 66000 lines, oversized jumps) are fed to Vm::run on debug (compiler debug assertions count as panics) and release. A crash, abort, signal or timeout before the compile hook reports a finished module is a front-end violation; a compile-error status must come with a diagnostic and empty stdout. REPL survival after bad lines is covered by C19.',
     note='Inputs that are not valid UTF-8 never reach the front end (the runtime refuses to read them); nesting beyond 256 is outside the stated bound. Known finding D26 (u16 line numbers) is keyed on its boundary input.', ref='DESIGN.md §2 C15')
 
 CHECKS['C16'] = dict(
     technique='outcome monitor (crash classifier over exit status, panic text, signals, sanitizer reports, step budget, in-VM stack monitor) over a native exerciser derived from the source, hostile program families, all corpora and accepted mutants, on debug and release (+ASan thorough)',
-    text='Every native discovered by scanning NativeMetaBuilder declarations is called with 0..arity+1 arguments drawn from a 37-value zoo as plain call, bound value, .call and callback; 228 hostile families (non-callables, wrong receivers, raise of non-errors, errors in catch and str(), built-in subclassing, recursion to the frame limit through 18 call shapes in and out of try and fibers, cyclic str, limits, comparators, mutation during iteration, channel and exit misuse); every generated program of every kind; thousands of mutants the front end accepts. The only allowed endings are normal exit, exit code, reported deadlock or a language error with a traceback.',
-    note='A crash is attributed to a known finding only by its family label plus panic site (known_findings.json: D5, D9, D12, D20, D25, D27, D37, D39); any other crash is a violation. io/env natives run in a scratch working directory with empty stdin.', ref='DESIGN.md §2 C16')
+    text='Every native discovered by scanning NativeMetaBuilder declarations is called with 0..arity+1 arguments drawn from a 37-value zoo as plain call, bound value, .call and callback; 318 hostile families (non-callables, wrong receivers, raise of non-errors, errors in catch and str(), built-in subclassing, wrong-kind values reaching call/raise/index/iterate/inherit/catch through captured (boxed) locals, superclass expressions of every kind with and without methods that use super, recursion to the frame limit through 18 call shapes in and out of try and fibers and entered through one and two extra frames (both parities of the frame counter), cyclic str, limits, comparators, mutation during iteration, channel and exit misuse); every generated program of every kind; thousands of mutants the front end accepts. The only allowed endings are normal exit, exit code, reported deadlock or a language error with a traceback.',
+    note='A crash is attributed to a known finding only by its family label plus panic site (known_findings.json: D5, D9, D12, D20, D25, D27, D39); any other crash is a violation. io/env natives run in a scratch working directory with empty stdin.', ref='DESIGN.md §2 C16')
 
 PENDING = {}
 
